@@ -160,3 +160,6 @@ def correspondence(rep, rng, tier):
                                      impl=err, model='bool', info=dict(batch=[x.SerializeToString().hex() for x in bt_])))
   rep.extra['batches_pushed'] = tried
   rep.evaluations += sum(tried.values())
+  # ---- model correspondence of the ECDSA check layer incl. malformed r/s (which inputs raise)
+  import corr.c02s as c02s
+  c02s.correspondence_sigs(rep, rng, tier)
